@@ -12,8 +12,8 @@ __CPROVER_requires(!g_owes_set && g_evlast == EVOP_NONE && g_resets == 0 && g_ev
 __CPROVER_ensures(H_EXIT(g_self_running, g_owes_set))
 /* the owner's last operation on the event is the set that releases the waiters -- it is not cleared again before the owner leaves */
 __CPROVER_ensures(g_won ==> g_evlast == EVOP_SET)
-/* a caller that never owned an attempt neither re-arms nor sets the event: it only waits on it */
-__CPROVER_ensures(!g_won ==> (g_evlast == EVOP_NONE && g_resets == 0 && g_sets == 0))
+/* a caller that never owned an attempt never re-arms the event */
+__CPROVER_ensures(!g_won ==> (g_resets == 0 && g_evlast != EVOP_RESET))
 /* callable threw: status back to 0, then the event set (and left set), and the exception propagates -- the next caller / a woken waiter retries */
 __CPROVER_ensures(g_thrown ==> (g_won && g_last_stored == 0 && g_evlast == EVOP_SET && !g_uncaught))
 /* a waiter never returns while status != done: a normal return happens only after reading `complete` or after running the callable to completion itself */
